@@ -286,7 +286,7 @@ def judge(ctx, case):
                                 bad_x=sorted(set(x[bad].tolist()))[:4], bounds=[lb, ub]),
                      f"bs(x, {kw}): rows at x = {sorted(set(x[bad].tolist()))[:4]} sum to {sums[bad][:4].tolist()}, not 1", "partition_of_unity")
     # later data use the training knots
-    fr = np.asarray(case["later_frac"], dtype=float) / 100.0
+    fr = np.clip(np.asarray(case["later_frac"], dtype=float) / 100.0, 0.01, 0.99)  # strictly between the boundary knots
     later = lb + fr * (ub - lb)
     both = np.concatenate([x[: min(3, n)], later])
     knots_before = np.array(obj._knots, copy=True)  # pylint: disable=protected-access
